@@ -593,6 +593,11 @@ class Factory:
         ]
         result["errors"] += tool_poetry_validation_errors
 
+        # Fields that are written as a single header line of the core metadata
+        # must not contain line breaks: the rest would be read as a new header.
+        for location, table in (("project", project), ("tool.poetry", tool_poetry)):
+            result["errors"] += cls._validate_single_line_fields(location, table or {})
+
         # Check for required fields if package mode.
         # In non-package mode, there are no required fields.
         package_mode = tool_poetry.get("package-mode", True)
@@ -621,6 +626,33 @@ class Factory:
             cls._validate_strict(config, result)
 
         return result
+
+    @classmethod
+    def _validate_single_line_fields(
+        cls, location: str, table: dict[str, Any]
+    ) -> list[str]:
+        fields: list[tuple[str, Any]] = [
+            (key, table.get(key)) for key in ("name", "description")
+        ]
+        for key in ("keywords", "classifiers", "authors", "maintainers"):
+            values = table.get(key)
+            for i, value in enumerate(values if isinstance(values, list) else []):
+                if isinstance(value, dict):
+                    fields += [(f"{key}[{i}].{k}", v) for k, v in value.items()]
+                else:
+                    fields.append((f"{key}[{i}]", value))
+        urls = table.get("urls")
+        for label, url in urls.items() if isinstance(urls, dict) else ():
+            fields += [("urls", label), (f"urls.{label}", url)]
+        readme = table.get("readme")
+        if isinstance(readme, dict):
+            fields.append(("readme.content-type", readme.get("content-type")))
+
+        return [
+            f"{location}.{field} must not contain line breaks"
+            for field, value in fields
+            if isinstance(value, str) and ("\n" in value or "\r" in value)
+        ]
 
     @classmethod
     def _validate_legacy_vs_project(
